@@ -1,4 +1,5 @@
 import GodiProofs.Props.C07
+import GodiProofs.Container.NoNotFound
 /-!
 # C08 — Build accepts exactly the registration sets whose services are resolvable (validation half)
 -/
@@ -77,6 +78,31 @@ theorem optional_missing_is_zero (beh : Beh) (st : State) (s f : Nat) (dep : Dep
   conv => lhs; unfold buildArgs
   simp [hg, hr, hopt, isConstruction]
 
+/-- **NEVER "SERVICE NOT FOUND"**: on a registry that passed validation, in every state over it (any
+history, any scope — fresh or not — any behaviour of the constructors), resolving a registered identity
+never yields an error whose chain contains `ErrServiceNotFound`, however deep the dependency nesting:
+every non-optional dependency of every registration met on the way is registered or built in, and an
+unregistered *optional* dependency is tolerated where it occurs -/
+theorem registered_service_never_not_found (beh : Beh) (st : State) (hv : verdict st.descs = .ok)
+    (s ty key : Nat) (hreg : (findService st.descs ty key).isSome) :
+    noNF (scopeGet beh st s ty key).2 = true :=
+  ((noNotFound beh st.descs (present_of_verdict _ hv) (fuelFor st)).1 st s ty key rfl).1 (Or.inl hreg)
+
+/-- … nor does the resolution of a group (whatever its members depend on), … -/
+theorem group_never_not_found (beh : Beh) (st : State) (hv : verdict st.descs = .ok) (s ty grp : Nat) :
+    noNF (scopeGetGroup beh st s ty grp).2 = true :=
+  (noNotFound beh st.descs (present_of_verdict _ hv) (fuelFor st)).2.2.1 st s ty grp rfl
+
+/-- … nor the construction of any registration (singletons at Build, initializers at scope creation) -/
+theorem construction_never_not_found (beh : Beh) (st : State) (hv : verdict st.descs = .ok) (s : Nat) (d : Desc)
+    (hd : d ∈ st.descs) : noNF (createInstance beh (fuelFor st) st s d).2 = true :=
+  (noNotFound beh st.descs (present_of_verdict _ hv) (fuelFor st)).2.2.2.2.2 st s d rfl hd
+
+/-- the built-in injectables are always found -/
+theorem builtin_never_not_found (beh : Beh) (st : State) (hv : verdict st.descs = .ok) (s ty : Nat) (ht : ty < 3) :
+    noNF (scopeGet beh st s ty 0).2 = true :=
+  ((noNotFound beh st.descs (present_of_verdict _ hv) (fuelFor st)).1 st s ty 0 rfl).1 (Or.inr ⟨rfl, ht⟩)
+
 def exMissing : List Desc :=
   [{ id := 0, ident := ⟨3, 0, 0⟩, life := .scoped, ctor := 1, kind := .plain, deps := [{ ty := 9 }] }]
 def exOptional : List Desc :=
@@ -84,5 +110,9 @@ def exOptional : List Desc :=
      deps := [{ ty := 9, optional := true }, { ty := 5, grp := 2 }, { ty := tyScope }] }]
 example : verdict exMissing = .missing := by decide
 example : verdict exOptional = .ok := by decide
+/-- the optional dependency on the unregistered type 9 is tolerated: the service is constructed -/
+example : okIs (scopeGet {} { descs := exOptional, nscopes := 1 } 0 3 0).2 (.inst 1) = true := by decide
+/-- without validation the premise fails for a reason: the missing required dependency surfaces as notFound -/
+example : noNF (scopeGet {} { descs := exMissing, nscopes := 1 } 0 3 0).2 = false := by decide
 
 end Godi.Props.C08
